@@ -29,6 +29,8 @@ re-spellings never reach a rule:
   N16 `a, b = x, y` becomes `a = x; b = y` when neither a nor b is read on the right-hand side
   N17 `d = {"a": x, ...}` (constant keys, local d) becomes `d = {}` followed by the item assignments; `d.update({...})` and
       `d.update({K: V for ...})` become the item assignments / the loops that make them
+  N18 emptiness tests in a boolean position: `len(x) == 0` is `not x`; `len(x) > 0`, `len(x) != 0`, `len(x) >= 1` are `x`
+  N19 `x = A; if c: x = B` (A a literal or a plain path, c and B do not read x) becomes `if c: x = B else: x = A`
 
 Positions are kept (reports still name the original lines).  The transformation is the same for the tree the rules were
 written against and for the tree under analysis, so it can only remove differences, never create one.
@@ -37,7 +39,7 @@ from __future__ import annotations
 
 import ast
 
-_QUIET = {"debug", "info", "log"}
+_QUIET = {"debug", "info"}      # (.log(level, ..) is kept: its level is a run-time value)
 _LOGGERS = {"logging", "logger", "log", "_log", "_logger", "LOG", "LOGGER"}
 
 
@@ -154,6 +156,34 @@ def _plain(e) -> bool:
                               ast.UnaryOp, ast.USub, ast.UAdd, ast.Slice)) for n in ast.walk(e))
 
 
+def _truthy(t):
+    """N18: an emptiness test in a boolean position: len(x) == 0 -> not x;  len(x) > 0, len(x) != 0, len(x) >= 1, 0 < len(x) -> x"""
+    if not (isinstance(t, ast.Compare) and len(t.ops) == 1):
+        return t
+    l, op, r = t.left, t.ops[0], t.comparators[0]
+
+    def is_len(e):
+        return isinstance(e, ast.Call) and isinstance(e.func, ast.Name) and e.func.id == "len" and len(e.args) == 1 and not e.keywords and _plain(e.args[0])
+
+    def num(e):
+        return e.value if isinstance(e, ast.Constant) and type(e.value) is int else None
+    if is_len(r) and num(l) is not None:          # 0 < len(x)  ->  len(x) > 0
+        flip = {ast.Lt: ast.Gt, ast.Gt: ast.Lt, ast.LtE: ast.GtE, ast.GtE: ast.LtE, ast.Eq: ast.Eq, ast.NotEq: ast.NotEq}
+        if type(op) not in flip:
+            return t
+        l, op, r = r, flip[type(op)](), l
+    if not (is_len(l) and num(r) is not None):
+        return t
+    x, n = l.args[0], num(r)
+    empty = (isinstance(op, ast.Eq) and n == 0) or (isinstance(op, ast.Lt) and n == 1) or (isinstance(op, ast.LtE) and n == 0)
+    nonempty = (isinstance(op, (ast.NotEq, ast.Gt)) and n == 0) or (isinstance(op, ast.GtE) and n == 1)
+    if empty:
+        return ast.copy_location(ast.UnaryOp(op=ast.Not(), operand=x), t)
+    if nonempty:
+        return x
+    return t
+
+
 def _is_none(e) -> bool:
     return isinstance(e, ast.Constant) and e.value is None
 
@@ -223,6 +253,13 @@ def _appends(st):
         return inner
 
     x = src_v = None
+    # `x = [<a if c else b> for v in xs]`: a list built by a per-element case distinction is the loop that appends in each case
+    if isinstance(st, ast.Assign) and len(st.targets) == 1 and isinstance(st.targets[0], ast.Name) and isinstance(st.value, ast.ListComp) \
+            and isinstance(st.value.elt, ast.IfExp) and not any(isinstance(n, ast.Name) and n.id == st.targets[0].id for n in ast.walk(st.value)):
+        lp = loops(_as_load(st.targets[0]), st.value)
+        if lp is not None:
+            init = ast.copy_location(ast.Assign(targets=[st.targets[0]], value=ast.copy_location(ast.List(elts=[], ctx=ast.Load()), st.value)), st)
+            return [init] + lp
     if isinstance(st, ast.AugAssign) and isinstance(st.op, ast.Add) and _plain(st.target):
         x, src_v = st.target, st.value
         x = _as_load(x)
@@ -536,6 +573,13 @@ class _Norm(ast.NodeTransformer):
                         if g is not None:
                             out[-1] = ast.copy_location(ast.Assign(targets=a.targets, value=g), prev)
                             continue
+                        # N19: `x = A; if c: x = B` (A a literal or a plain path, c does not read x) is `if c: x = B else: x = A`
+                        tname = ast.unparse(a.targets[0])
+                        reads_x = any(ast.unparse(n) == tname for n in ast.walk(st.test) if isinstance(n, (ast.Name, ast.Attribute)))
+                        if _literal_default(prev.value) and not reads_x and not any(
+                                ast.unparse(n) == tname for n in ast.walk(a.value) if isinstance(n, (ast.Name, ast.Attribute))):
+                            out[-1] = self.visit_If(ast.copy_location(ast.If(test=st.test, body=st.body, orelse=[prev]), st))
+                            continue
             out.append(st)
         # `if k in d: return d[k]` + `return V`
         if len(out) >= 2 and isinstance(out[-1], ast.Return) and out[-1].value is not None and isinstance(out[-2], ast.If) and not out[-2].orelse \
@@ -547,6 +591,7 @@ class _Norm(ast.NodeTransformer):
 
     def visit_IfExp(self, node):
         self.generic_visit(node)
+        node.test = self._bool_pos(node.test)
         g = _get_form(node.test, node.body, node.orelse)
         if g is None and _is_negative(node.test):
             g = _get_form(_negate(node.test), node.orelse, node.body)
@@ -597,7 +642,11 @@ class _Norm(ast.NodeTransformer):
         if self.fn_stack:
             node.body = self._tail_form(node.body, ast.Continue) or [ast.copy_location(ast.Pass(), node)]
         return node
-    visit_While = visit_For
+    def visit_While(self, node):
+        node = self.visit_For(node)
+        if isinstance(node, ast.While):
+            node.test = self._bool_pos(node.test)
+        return node
 
     def _index_form(self, node):
         """N14: `for a, (b, c) in pairs:` reads the elements by position: `for a_b_c in pairs:` with a -> a_b_c[0], b -> a_b_c[1][0] ...
@@ -766,8 +815,26 @@ class _Norm(ast.NodeTransformer):
             return ast.copy_location(ast.Call(func=ast.Name(id="str", ctx=ast.Load()), args=[node.values[0].value], keywords=[]), node)
         return node
 
+    def visit_Assert(self, node):
+        self.generic_visit(node)
+        node.test = self._bool_pos(node.test)
+        return node
+
+    def _bool_pos(self, t):
+        if isinstance(t, ast.BoolOp):
+            t.values = [self._bool_pos(v) for v in t.values]
+            return t
+        if isinstance(t, ast.UnaryOp) and isinstance(t.op, ast.Not):
+            inner = self._bool_pos(t.operand)
+            if isinstance(inner, ast.UnaryOp) and isinstance(inner.op, ast.Not):
+                return inner.operand if _boolish(inner.operand) or True else t      # in a boolean position `not not x` is `x`
+            t.operand = inner
+            return t
+        return _truthy(t)
+
     def visit_If(self, node):
         self.generic_visit(node)
+        node.test = self._bool_pos(node.test)
         while node.orelse and not (len(node.orelse) == 1 and isinstance(node.orelse[0], ast.If)) and not _ends(node.body) and not _ends(node.orelse):
             if not _is_negative(node.test):
                 break
